@@ -81,8 +81,9 @@ reg(Spec('C04', ['c04:C04'],
 reg(Spec('C05', ['c05:C05'],
          quick=[('FLOW', 2500), ('RACE', 1000)],
          thorough=[('FLOW', 50000), ('RACE', 20000)],
-         overrides={'*': {'no_manual_winc': True}},
-         rule=R_RUN + 'non-trivial = an advertised window was driven to zero at least once' + R_DISTINCT))
+         overrides={'*': {'no_manual_winc': True, 'no_over_ack': True}},
+         rule=R_RUN + 'non-trivial = an advertised window was driven to zero at least once' + R_DISTINCT,
+         assumptions=['applications acknowledge exactly the bytes they received (no manual window increments, no over-acknowledgement): the premise of the property']))
 reg(Spec('C07', ['c07:C07'],
          quick=[('ADV', 2000), ('CORRUPT', 1500), ('DUPLEX', 500)],
          thorough=[('ADV', 50000), ('CORRUPT', 30000), ('DUPLEX', 10000), ('RACE', 10000)],
@@ -93,8 +94,9 @@ reg(Spec('C18', ['c18:C18'],
          overrides={'ADV': {'adv_plausible': 0.5}},
          rule=R_RUN + 'non-trivial = at least one connection error (receive_data raised ProtocolError)' + R_DISTINCT))
 reg(Spec('C19', ['c19:C19'],
-         quick=[('CLOSE', 2000), ('CORRUPT', 1000), ('ADV', 500)],
-         thorough=[('CLOSE', 40000), ('CORRUPT', 20000), ('ADV', 20000), ('RACE', 10000)],
+         quick=[('CLOSE', 2500), ('CORRUPT', 1000), ('ADV', 500)],
+         thorough=[('CLOSE', 50000), ('CORRUPT', 20000), ('ADV', 20000), ('RACE', 10000)],
+         overrides={'CLOSE': {'settings_bias': {4: [3, 50, 1024, 65535]}, 'ops_boost': {'data': 2}}},
          rule=R_RUN + 'non-trivial = >= 3 calls and >= 1 received frame after the connection closed' + R_DISTINCT))
 reg(Spec('C26', ['c26:C26'],
          quick=[('DUPLEX', 1200), ('CORRUPT', 1200), ('ADV', 1200)],
